@@ -453,7 +453,8 @@ OPERAND_CLASSES = ["exact", "permuted", "offset", "const-index", "var0d",
                    "scalar", "nan", "compound", "exact-bcast"]
 HEADS = ["Sum", "Sub", "Product", "Quotient", "FloorDiv", "Remainder",
          "Power", "Comparison<", "LogicalAnd", "BitwiseXor", "If", "Call1",
-         "Call2", "Zero", "LogicalNot", "Bare", "Sum3"]
+         "Call2", "Zero", "LogicalNot", "Bare", "Sum3", "SumNegProd3",
+         "SumNegProd2", "Prod3"]
 
 
 def mk_operand(h, cls, name, n0, n1):
@@ -520,6 +521,14 @@ def mk_head(head, xs):
         return xs[0]
     if head == "Sum3":
         return p.Sum((xs[0], xs[1], xs[0]))
+    if head == "SumNegProd3":
+        # x + (-1)*y*x: *not* x - y
+        return p.Sum((xs[0], p.Product((-1, xs[1], xs[0]))))
+    if head == "SumNegProd2":
+        # x + (-1)*y: how the API spells x - y
+        return p.Sum((xs[0], p.Product((-1, xs[1]))))
+    if head == "Prod3":
+        return p.Product((xs[0], xs[1], xs[0]))
     raise KeyError(head)
 
 
